@@ -28,6 +28,7 @@ func dirtySlack(b []byte) []byte {
 	for i := len(b); i < len(backing); i++ {
 		backing[i] = 0xa5 ^ byte(i)
 	}
+	inputBufs = append(inputBufs, backing[:len(b)])
 	return backing[:len(b)]
 }
 
